@@ -186,6 +186,47 @@ func (k c05) aggrMixed(c *rt.Ctx) {
 	}
 }
 
+// pointReadsAndRowLoops: a named field filtered over point reads (absent keys in between), and a
+// named field used before and after a function that walks the chunk pair by pair (join, list,
+// ilist, flist), over more pairs than a chunk holds.
+func (k c05) pointReadsAndRowLoops(c *rt.Ctx) {
+	r := c.R
+	var ps []refstore.Pair
+	n := r.Range(8, 20)
+	for i := 0; i < n; i++ {
+		ps = append(ps, refstore.Pair{K: fmt.Sprintf("k%02d", i), V: fmt.Sprint((i * 5) % 13)})
+	}
+	ps = refstore.New(ps).Pairs()
+	ndef := gen.Call("int", gen.Value())
+	nref := func() *gen.Node { return gen.Ref("n", ndef) }
+	var w *gen.Node
+	if r.Bool() {
+		// point reads, some of them of absent keys
+		items := []*gen.Node{}
+		for i := 0; i < r.Range(3, 7); i++ {
+			if r.Chance(1, 4) {
+				items = append(items, gen.Str(fmt.Sprintf("k%02dx", r.Intn(n))))
+			} else {
+				items = append(items, gen.Str(fmt.Sprintf("k%02d", r.Intn(n))))
+			}
+		}
+		w = gen.And(gen.In(gen.Key(), items...), gen.Bin([]string{"!=", ">", "<="}[r.Intn(3)], nref(), gen.Int(int64(r.Range(0, 9)))))
+		c.Rec.Inc("named_field_over_point_reads")
+	} else {
+		loop := []*gen.Node{
+			gen.Bin("!=", gen.Call("join", gen.Str("-"), gen.Key(), gen.Str("x")), gen.Str("zz")),
+			gen.Bin(">=", gen.Call("len", gen.Call("list", gen.Call("strlen", gen.Key()), gen.Int(2))), gen.Int(1)),
+			gen.Bin("<", gen.IndexI(gen.Call("ilist", gen.Int(1), gen.Call("strlen", gen.Key())), 0), gen.Int(5)),
+		}[r.Intn(3)]
+		w = gen.And(gen.And(gen.Bin(">=", nref(), gen.Int(0)), loop), gen.Bin("!=", nref(), gen.Int(int64(r.Range(0, 5)))))
+		c.Rec.Inc("named_field_around_a_row_loop")
+	}
+	stmt := &gen.Stmt{Kind: "select", Fields: []gen.Field{{E: ndef, Alias: "n"}, {E: gen.Key()}}, Where: w}
+	if hit := k.judge(c, stmt, ps, ""); hit != "" {
+		k.judge(c, stmt, ps, stmt.Text(gen.Plain))
+	}
+}
+
 // vectors: a list-valued field used by name in several distance calls (and in the filter):
 // every use must see the field's own value.
 func (k c05) vectors(c *rt.Ctx) {
@@ -237,6 +278,10 @@ func (k c05) Run(c *rt.Ctx) {
 	}
 	if r.Chance(1, 15) {
 		k.aggrMixed(c)
+		return
+	}
+	if r.Chance(1, 12) {
+		k.pointReadsAndRowLoops(c)
 		return
 	}
 	st := gen.NewStore(r, c05Families[r.Intn(len(c05Families))])
